@@ -14,7 +14,7 @@ def mk(t, n, strat, band=None):
     regions = ldu_regions(t, n) + [treg('A', t, [n, n], 'in', init='undef'), treg('X', t, [n, n], 'out'), rreg('R1', t, n * n), rreg('R2', t, n * n)]
     stages = [{'mod': 'ref', 'fn': '@R@pre', 'args': ['lam', 'del', 'mu', 'A']}, {'mod': 'wit', 'fn': '@W@', 'args': ['A', 'X']}, {'mod': 'ref', 'fn': '@R@post', 'args': ['A', 'X', 'R1', 'R2']}]
     obl = [{'kind': 'zero', 'region': 'R1', 'cells': n * n}, {'kind': 'zero', 'region': 'R2', 'cells': n * n}]
-    return Witness('inv_%s_%s_%d%s' % (t, strat, n, '_band%d' % band if band else ''), 'inverse.' + strat + ('.banded' if band else '.full'), {'type': t, 'n': n, 'strategy': strat, 'band': band}, wit, ref, regions, stages, obl,
+    return Witness('inv_%s_%s_%d%s' % (t, strat, n, band_tag(band)), 'inverse.' + strat + ('.banded' if isinstance(band, int) else ('.' + band if band else '.full')), {'type': t, 'n': n, 'strategy': strat, 'band': band}, wit, ref, regions, stages, obl,
                    extra={'poly_cap': 600000, 'max_steps': 200000000})
 
 
@@ -27,22 +27,22 @@ def mk_plain(t, n, strat):
                    [{'mod': 'wit', 'fn': '@W@', 'args': ['A', 'X']}], obl)
 
 
-def mk_tinverse(t, n, uplo):
+def mk_tinverse(t, n, uplo, band=None):
     ct = CTYPE[t]
     tt = tensor_t(t, [n, n])
     wit = 'extern "C" void @W@(const %s& A, %s& X){ X = tinverse<InvCompType::SimpleInv, UpLoType::%s>(A); }' % (tt, tt, uplo)
     # A = D U(mu) (upper) or L(lam) D... built with the same pre stage and one factor left trivial
     zl = ', '.join(['0'] * 1)
     if uplo == 'Upper':
-        pre = 'extern "C" void @R@pre(const %s* lam, const %s* del, const %s* mu, %s* A){ for(int i=0;i<%d;i++) for(int j=0;j<%d;j++) A[i*%d+j] = (i==j) ? del[i] : (i<j ? del[i]*mu[i*%d+j] : (%s)0); }' % (ct, ct, ct, ct, n, n, n, n, ct)
+        pre = 'extern "C" void @R@pre(const %s* lam, const %s* del, const %s* mu, %s* A){ for(int i=0;i<%d;i++) for(int j=0;j<%d;j++) A[i*%d+j] = (i==j) ? del[i] : ((i<j && j-i<=%d) ? del[i]*mu[i*%d+j] : (%s)0); }' % (ct, ct, ct, ct, n, n, n, band or n, n, ct)
     else:   # UniLower: unit lower triangular, the only lower form the library offers
-        pre = 'extern "C" void @R@pre(const %s* lam, const %s* del, const %s* mu, %s* A){ for(int i=0;i<%d;i++) for(int j=0;j<%d;j++) A[i*%d+j] = (i==j) ? (%s)1 : (i>j ? lam[i*%d+j] : (%s)0); }' % (ct, ct, ct, ct, n, n, n, ct, n, ct)
+        pre = 'extern "C" void @R@pre(const %s* lam, const %s* del, const %s* mu, %s* A){ for(int i=0;i<%d;i++) for(int j=0;j<%d;j++) A[i*%d+j] = (i==j) ? (%s)1 : ((i>j && i-j<=%d) ? lam[i*%d+j] : (%s)0); }' % (ct, ct, ct, ct, n, n, n, ct, band or n, n, ct)
     ref = pre + '\n' + post_residual(ct, n)
     regions = ldu_regions(t, n) + [treg('A', t, [n, n], 'in', init='undef'), treg('X', t, [n, n], 'out'), rreg('R1', t, n * n), rreg('R2', t, n * n)]
     stages = [{'mod': 'ref', 'fn': '@R@pre', 'args': ['lam', 'del', 'mu', 'A']}, {'mod': 'wit', 'fn': '@W@', 'args': ['A', 'X']}, {'mod': 'ref', 'fn': '@R@post', 'args': ['A', 'X', 'R1', 'R2']}]
     zeros = [i * n + j for i in range(n) for j in range(n) if (uplo == 'Upper' and i > j) or (uplo == 'UniLower' and i < j)]
     obl = [{'kind': 'zero', 'region': 'R1', 'cells': n * n}, {'kind': 'zero', 'region': 'R2', 'cells': n * n}]
-    return Witness('tinv_%s_%s_%d' % (t, uplo, n), 'tinverse.' + uplo, {'type': t, 'n': n, 'uplo': uplo}, wit, ref, regions, stages, obl, extra={'poly_cap': 600000})
+    return Witness('tinv_%s_%s_%d%s' % (t, uplo, n, band_tag(band)), 'tinverse.' + uplo + ('.banded' if band else ''), {'type': t, 'n': n, 'uplo': uplo, 'band': band}, wit, ref, regions, stages, obl, extra={'poly_cap': 600000, 'max_ms': 400000})
 
 
 def witnesses(tier, seed):
@@ -54,15 +54,25 @@ def witnesses(tier, seed):
                 if t == 'f32' and n > 6 and quick:
                     continue
                 W.append(mk(t, n, strat))
-            for n in ([8, 9, 12, 16, 17] if quick else [9, 10, 11, 12, 16, 17, 32, 33]):
+            for n in ([8, 9, 12, 16, 17, 33, 40] if quick else [9, 10, 11, 12, 16, 17, 32, 33, 40, 64, 65, 80, 129]):
                 if t == 'f32' and quick and n not in (9, 17):
                     continue
                 W.append(mk(t, n, strat, band=1))
+                W.append(mk(t, n, strat, band='arrow'))
+                if n <= 17:
+                    W.append(mk(t, n, strat, band='arrow1'))
+                if n <= 12:
+                    W.append(mk(t, n, strat, band='hub'))
             for n in (1, 2, 3, 4, 5, 8, 9, 16, 17):
                 W.append(mk_plain(t, n, strat))
         for uplo in ('Upper', 'UniLower'):
             for n in ([2, 3, 4, 5, 8, 9] if quick else [2, 3, 4, 5, 6, 7, 8, 9, 12, 16, 17]):
                 W.append(mk_tinverse(t, n, uplo))
+            # every size class of the recursive triangular inverse (<=4, <=8, <=16, <=32, <=64, <=128, <=256) on bidiagonal operands
+            for n in ([16, 17, 32, 33, 65] if quick else [16, 17, 32, 33, 64, 65, 128, 129, 257]):
+                if t == 'f32' and n not in (17, 33):
+                    continue
+                W.append(mk_tinverse(t, n, uplo, band=1))
     # the pivoted strategies end to end: the pivot search is interpreted symbolically (row indices become finite choices steered by
     # the comparisons |a_ij| > |a_kj|), every result cell is a case tree, and A*X - I == 0 == X*A - I is decided in every case
     for t in ('f64', 'f32'):
